@@ -554,6 +554,10 @@ impl Default for ProxyOpts {
     }
 }
 
+pub fn proxy_config_pub(address: &str, o: &ProxyOpts) -> ServerProxyConfig {
+    proxy_config(address, o)
+}
+
 fn proxy_config(address: &str, o: &ProxyOpts) -> ServerProxyConfig {
     let host = address.split(':').next().unwrap_or("127.0.0.1").to_string();
     ServerProxyConfig {
@@ -624,6 +628,10 @@ impl World {
         let node = Arc::new(ProxyNode { address: address.to_string(), handler, authenticated: AtomicBool::new(false), sessions: AtomicUsize::new(0) });
         self.0.st.lock().unwrap().proxies.insert(address.to_string(), node.clone());
         node
+    }
+
+    pub fn conn_factory(&self, owner: &str) -> Arc<SimConnFactory> {
+        Arc::new(SimConnFactory { world: Arc::downgrade(&self.0), owner: owner.to_string() })
     }
 
     pub fn client_factory(&self, owner: &str) -> Arc<SimClientFactory> {
